@@ -102,14 +102,75 @@ def run(tier="quick", seed=0, repo="/repo"):
         except snowflake.connector.errors.DatabaseError as e:
             return e.errno == 250002
 
-    for name, fn in (("normal", mode_normal), ("body_raises", mode_body_raises), ("nested", mode_nested), ("reenter", mode_reenter), ("setup_fails", mode_setup_fails), ("closed_after", mode_closed_after)):
+    def _closed(conn):
+        try:
+            conn.cursor().execute("select 1")
+            return False
+        except snowflake.connector.errors.DatabaseError as e:
+            return e.errno == 250002
+
+    def mode_closed_after_body_raises():
+        box = {}
+        try:
+            with fakesnow.patch():
+                box["conn"] = snowflake.connector.connect(database="d", schema="s")
+                box["conn"].cursor().execute("select 1")
+                raise KeyError("boom")
+        except KeyError:
+            pass
+        return restored() and _closed(box["conn"])
+
+    def mode_closed_after_nested_refused():
+        # the refused inner patch() must not close (or otherwise damage) the outer one's instance; the outer exit closes it
+        with fakesnow.patch():
+            conn = snowflake.connector.connect(database="d", schema="s")
+            try:
+                with fakesnow.patch():
+                    return False
+            except AssertionError:
+                pass
+            usable = conn.cursor().execute("select 41 + 1").fetchall() == [(42,)]
+        return usable and restored() and _closed(conn)
+
+    def mode_instance_closed_when_setup_fails():
+        # the instance created by a patch() whose set-up fails is closed too: observed through the instance object handed to
+        # FakeSnow's constructor spy
+        import fakesnow.instance as inst
+
+        made = []
+        real_init = inst.FakeSnow.__init__
+
+        def spy(self, *a, **k):
+            real_init(self, *a, **k)
+            made.append(self)
+
+        inst.FakeSnow.__init__ = spy
+        try:
+            try:
+                with fakesnow.patch("nonexistent_module_xyz.fn"):
+                    pass
+            except Exception:  # noqa: BLE001
+                pass
+        finally:
+            inst.FakeSnow.__init__ = real_init
+            snowflake.connector.connect, snowflake.connector.pandas_tools.write_pandas = orig
+        if not made:
+            return True  # set-up failed before an instance existed: nothing to close
+        try:
+            made[-1].duck_conn.execute("select 1")
+            return False
+        except Exception as e:  # noqa: BLE001
+            return "closed" in str(e).lower()
+
+    for name, fn in (("normal", mode_normal), ("body_raises", mode_body_raises), ("nested", mode_nested), ("reenter", mode_reenter), ("setup_fails", mode_setup_fails), ("closed_after", mode_closed_after),
+                     ("closed_after_body_raises", mode_closed_after_body_raises), ("closed_after_nested_refused", mode_closed_after_nested_refused), ("instance_closed_when_setup_fails", mode_instance_closed_when_setup_fails)):
         try:
             ok = fn()
             detail = "ok" if ok else "targets not restored / wrong state"
         except Exception as e:  # noqa: BLE001
             ok, detail = False, f"{type(e).__name__}: {e}"
         t.case(f"patch:{name}", ("patch", name), ok, function="fakesnow.patch", case={"mode": name}, expected="targets restored, instance closed, re-entry possible", actual=detail)
-    return t.result(bound=f"argv length <= {maxlen} over {len(TOKENS)} tokens; 6 patch() exit modes")
+    return t.result(bound=f"argv length <= {maxlen} over {len(TOKENS)} tokens; 9 patch() exit modes (targets restored, connections closed, re-entry, nesting refused)")
 
 
 def replay(case, repo):
